@@ -872,6 +872,7 @@ static void run_equiv(Json& js, vh::Rng& rng, long budget, bool big) {
         const bool cplx = rng.coin();
         const int kind = (int)rng.range(0, 4);
         const bool dyn = rng.range(0, 3) == 0;   // large dynamic range content
+        const bool gated = rng.range(0, 2) == 0;  // impulsive content: bursts and digital silence
         auto gen = [&](double sc) { return dyn ? sc * std::pow(10.0, rng.range(-150, 150) * 1.0 * (rng.range(0, 9) == 0)) * rng.gauss() : rng.gauss(); };
         long fd = -1, olen = 0;
         int block = 0;
@@ -883,6 +884,15 @@ static void run_equiv(Json& js, vh::Rng& rng, long budget, bool big) {
             }
             for (int i = 0; i < n; ++i) {
                 x[i] = gen(1.0);
+            }
+            if (gated) {   // bursts separated by stretches of exact zeros, several blocks long
+                for (int i = 0; i < n;) {
+                    const int on = (int)rng.range(1, 2 * nh + 3), off = (int)rng.range(2 * nh, 9 * nh + 40);
+                    i += on;
+                    for (int j = 0; j < off && i < n; ++j, ++i) {
+                        x[i] = 0;
+                    }
+                }
             }
             FirFilterR f1(h);
             FftFilter f2(h);
@@ -917,6 +927,15 @@ static void run_equiv(Json& js, vh::Rng& rng, long budget, bool big) {
             }
             for (int i = 0; i < n; ++i) {
                 x[i] = cmplx_t(gen(1.0), gen(1.0));
+            }
+            if (gated) {
+                for (int i = 0; i < n;) {
+                    const int on = (int)rng.range(1, 2 * nh + 3), off = (int)rng.range(2 * nh, 9 * nh + 40);
+                    i += on;
+                    for (int j = 0; j < off && i < n; ++j, ++i) {
+                        x[i] = cmplx_t(0, 0);
+                    }
+                }
             }
             FirFilterC f1(h);
             FftFilter f2(h);
